@@ -13,7 +13,8 @@ WEIGHTS = {'iter': 26, 'cb': 22, 'makeMut': 10, 'makeUnique': 6, 'unwrapOrClone'
 
 
 def run(ctx):
-    histcheck.run(ctx, MODULE, WEIGHTS, TAGS, lean_extra=EXTRA)
+    histcheck.run(ctx, MODULE, WEIGHTS, TAGS, lean_extra=EXTRA,
+                  release_quick_filter=lambda h: any(op.split()[0] in ('iter', 'cb') for op in h))
 
 
 def replay(ctx, path):
